@@ -166,111 +166,7 @@ func runC07(p *Prog, r *Report, tier string) {
 	}
 	checkReadyAtOnce(p, r, "R-OWNER.ready-at-once")
 	checkSingleSuccessExit(p, r, "R-OWNER.every-record-applied")
-	// (3) retries
-	nW := 0
-	for _, f := range p.RepoFns {
-		if !keyInPkg(fnKey(f), "pkg/intermediate") {
-			continue
-		}
-		idx := 0
-		eachInstr(f, func(in ssa.Instruction) {
-			st, ok := in.(*ssa.Store)
-			if !ok {
-				return
-			}
-			tn, fn, base, ok := fieldOf(st.Addr)
-			if !ok || tn != "pkg/intermediate.AggregationFlowRecord" || fn != "waitForReadyToSendRetries" {
-				return
-			}
-			idx++
-			nW++
-			construct := fmt.Sprintf("%s: store #%d to waitForReadyToSendRetries", fnKey(f), idx)
-			if v, ok := constInt(st.Val); ok {
-				_, fresh := base.(*ssa.Alloc)
-				r.Check(v == 0 && fresh, "R-OWNER.retries", construct, p.instrPos(in), "0 at creation", "the retry counter of an existing record is reset: an uncorrelated flow is retried forever instead of being dropped after MaxRetries", true)
-				return
-			}
-			isCounter := func(v ssa.Value) bool {
-				_, f2, _, ok2 := loadedField(v)
-				return ok2 && f2 == "waitForReadyToSendRetries"
-			}
-			b, ok := st.Val.(*ssa.BinOp)
-			inc := ok && b.Op == token.ADD
-			if inc {
-				oneY, okY := constInt(b.Y)
-				oneX, okX := constInt(b.X)
-				inc = (okY && oneY == 1 && isCounter(b.X)) || (okX && oneX == 1 && isCounter(b.Y))
-			}
-			// in the not-ready branch of the scan, once (not in an inner loop)
-			notReady := false
-			for _, gd := range guardsOf(in.Block()) {
-				c, falseSucc := gd.If.Cond, 1
-				for {
-					u, ok := c.(*ssa.UnOp)
-					if !ok || u.Op != token.NOT {
-						break
-					}
-					c, falseSucc = u.X, 1-falseSucc
-				}
-				if bo, ok := c.(*ssa.BinOp); ok && (bo.Op == token.EQL || bo.Op == token.NEQ) {
-					// ReadyToSend == false / != true / ...
-					for _, pr := range [][2]ssa.Value{{bo.X, bo.Y}, {bo.Y, bo.X}} {
-						if k, ok := pr[1].(*ssa.Const); ok && k.Value != nil && k.Value.Kind() == constant.Bool {
-							c = pr[0]
-							if constant.BoolVal(k.Value) != (bo.Op == token.EQL) {
-								falseSucc = 1 - falseSucc
-							}
-						}
-					}
-				}
-				if u, ok := c.(*ssa.UnOp); ok && u.Op == token.MUL && isRTS(u.X) && gd.Succ == falseSucc {
-					notReady = true
-				}
-			}
-			// followed by the MaxRetries comparison (either operand order, either polarity)
-			cmp := false
-			if i := ifOf(in.Block()); i != nil {
-				for _, cf := range cmpForms(i.Cond) {
-					// the counter re-read from the field, or the very value that was just stored into it (a named local)
-					if cf.Op != token.GTR || !(isCounter(cf.X) || cf.X == st.Val) {
-						continue
-					}
-					g, ok := cf.Y.(*ssa.UnOp)
-					if !ok {
-						continue
-					}
-					if gl, ok := g.X.(*ssa.Global); !ok || gl.Name() != "MaxRetries" {
-						continue
-					}
-					// '>' edge deletes, other edge re-arms both deadlines
-					del, rearmA, rearmI := false, false, false
-					for _, x := range i.Block().Succs[cf.Succ].Instrs {
-						if cc, ok := x.(*ssa.Call); ok && cc.Call.StaticCallee() != nil && cc.Call.StaticCallee().Name() == "deleteFlowKeyFromMapWithoutLock" {
-							del = true
-						}
-					}
-					for _, x := range i.Block().Succs[1-cf.Succ].Instrs {
-						if s2, ok := x.(*ssa.Store); ok {
-							if _, f3, _, ok := fieldOf(s2.Addr); ok {
-								if f3 == "activeExpireTime" {
-									rearmA = true
-								}
-								if f3 == "inactiveExpireTime" {
-									rearmI = true
-								}
-							}
-						}
-					}
-					cmp = del && rearmA && rearmI
-				}
-			}
-			r.Check(inc && notReady && cmp, "R-OWNER.retries", construct, p.instrPos(in), "+1 in the not-ready branch, then '> MaxRetries' => delete, else re-arm both deadlines and re-push",
-				"the retry counter is not 'incremented once per not-ready expiry, compared with MaxRetries, > deletes, otherwise both deadlines re-armed': uncorrelated flows are not dropped after a bounded number of retries", true)
-		})
-	}
-	if nW < 2 {
-		r.Undecided("R-OWNER.retries", "anchor: writers of waitForReadyToSendRetries", "pkg/intermediate/aggregate.go", fmt.Sprintf("found %d", nW))
-	}
+	checkRetries(p, r, "R-OWNER.retries")
 	// (4) decision table
 	if icr == nil {
 		r.Undecided("R-TABLE.correlation", "anchor: isCorrelationRequired", "pkg/intermediate/aggregate.go", "not found")
@@ -342,6 +238,22 @@ func checkCorrelateGuards(p *Prog, r *Report) {
 							b2[fv] = mc.Bindings[i]
 						}
 					}
+					// its parameters are what the call of the bound literal passes: "apply(existingElement)"
+					eachInstr(fn, func(y ssa.Instruction) {
+						c2, ok := y.(*ssa.Call)
+						if !ok || c2.Call.IsInvoke() {
+							return
+						}
+						for _, lf := range phiLeaves(c2.Call.Value, 3) {
+							if lf == ssa.Value(mc) {
+								for i, prm := range af.Params {
+									if i < len(c2.Call.Args) {
+										b2[prm] = c2.Call.Args[i]
+									}
+								}
+							}
+						}
+					})
 					visit(af, append(append([]relFact{}, outerFacts...), blockFacts(in.Block())...), b2)
 				}
 				return
@@ -354,6 +266,16 @@ func checkCorrelateGuards(p *Prog, r *Report) {
 			val := c.Call.Args[0]
 			if bv, ok := bind[val]; ok {
 				val = bv
+			}
+			// a variable captured by the literal is a cell: its (single) stored value is what is written
+			if u, ok := val.(*ssa.UnOp); ok && u.Op == token.MUL {
+				if cell, ok := bind[u.X]; ok {
+					if al, ok := cell.(*ssa.Alloc); ok {
+						if sv := singleStoreValue(al); sv != nil {
+							val = sv
+						}
+					}
+				}
 			}
 			neq, bad := false, ""
 			for _, fct := range append(append([]relFact{}, outerFacts...), blockFacts(in.Block())...) {
@@ -377,7 +299,32 @@ func checkCorrelateGuards(p *Prog, r *Report) {
 					bad = fmt.Sprintf("%s %s %s", val.Name(), op, y.Name())
 				}
 			}
-			r.Check(neq && bad == "", "R-SIBLING.correlate", fmt.Sprintf("pkg/intermediate.correlateRecords: %s guarded by a non-empty test", c.Call.Method.Name()), p.instrPos(in),
+			// the element that is written is the one of the SAME NAME in the existing record: found by a lookup with the name
+		// the incoming value was looked up under (records of the two nodes need not order their elements alike)
+		lookupOf := func(v ssa.Value) *ssa.Call {
+			if bv, ok := bind[v]; ok {
+				v = bv
+			}
+			ex, ok := v.(*ssa.Extract)
+			if !ok || ex.Index != 0 {
+				return nil
+			}
+			lc, ok := ex.Tuple.(*ssa.Call)
+			if !ok || !lc.Call.IsInvoke() || lc.Call.Method.Name() != "GetInfoElementWithValue" {
+				return nil
+			}
+			return lc
+		}
+		dst := lookupOf(c.Call.Value)
+		var src *ssa.Call
+		if gv, ok := val.(*ssa.Call); ok && gv.Call.IsInvoke() {
+			src = lookupOf(gv.Call.Value)
+		}
+		sameName := dst != nil && src != nil && len(dst.Call.Args) == 1 && len(src.Call.Args) == 1 && (dst.Call.Args[0] == src.Call.Args[0] || sameValue(dst.Call.Args[0], src.Call.Args[0]) || (bind[dst.Call.Args[0]] != nil && bind[dst.Call.Args[0]] == bind[src.Call.Args[0]]))
+		r.Check(sameName, "R-SIBLING.correlate-by-name", fmt.Sprintf("pkg/intermediate.correlateRecords: %s writes the element of the same name", c.Call.Method.Name()), p.instrPos(in),
+			"existing.GetInfoElementWithValue(name) with the name the incoming value was read under",
+			"the element written in the existing record is not found by the field's name (by position, cached, another name): when the two nodes order their elements differently the value lands in another field and the named field stays empty", true)
+		r.Check(neq && bad == "", "R-SIBLING.correlate", fmt.Sprintf("pkg/intermediate.correlateRecords: %s guarded by a non-empty test", c.Call.Method.Name()), p.instrPos(in),
 				"copied iff the incoming value differs from the zero value", "the copy is guarded by an ordering test ("+bad+") or by no inequality at all: some non-empty values (e.g. negative ones) are treated as empty and the merged record is exported without them", true)
 		})
 	}
@@ -722,5 +669,115 @@ func checkSingleSuccessExit(p *Prog, r *Report, rule string) {
 	})
 	if n == 0 {
 		r.Undecided(rule, fnKey(add)+": success returns", p.pos(add.Pos()), "none found")
+	}
+}
+
+// checkRetries: the retry budget of a flow that waits for correlation (C07's rule, imported by C06: a wrong bound drops a
+// held flow early or never).
+func checkRetries(p *Prog, r *Report, rule string) {
+	// (3) retries
+	nW := 0
+	for _, f := range p.RepoFns {
+		if !keyInPkg(fnKey(f), "pkg/intermediate") {
+			continue
+		}
+		idx := 0
+		eachInstr(f, func(in ssa.Instruction) {
+			st, ok := in.(*ssa.Store)
+			if !ok {
+				return
+			}
+			tn, fn, base, ok := fieldOf(st.Addr)
+			if !ok || tn != "pkg/intermediate.AggregationFlowRecord" || fn != "waitForReadyToSendRetries" {
+				return
+			}
+			idx++
+			nW++
+			construct := fmt.Sprintf("%s: store #%d to waitForReadyToSendRetries", fnKey(f), idx)
+			if v, ok := constInt(st.Val); ok {
+				_, fresh := base.(*ssa.Alloc)
+				r.Check(v == 0 && fresh, rule, construct, p.instrPos(in), "0 at creation", "the retry counter of an existing record is reset: an uncorrelated flow is retried forever instead of being dropped after MaxRetries", true)
+				return
+			}
+			isCounter := func(v ssa.Value) bool {
+				_, f2, _, ok2 := loadedField(v)
+				return ok2 && f2 == "waitForReadyToSendRetries"
+			}
+			b, ok := st.Val.(*ssa.BinOp)
+			inc := ok && b.Op == token.ADD
+			if inc {
+				oneY, okY := constInt(b.Y)
+				oneX, okX := constInt(b.X)
+				inc = (okY && oneY == 1 && isCounter(b.X)) || (okX && oneX == 1 && isCounter(b.Y))
+			}
+			// in the not-ready branch of the scan, once (not in an inner loop)
+			notReady := false
+			for _, gd := range guardsOf(in.Block()) {
+				c, falseSucc := gd.If.Cond, 1
+				for {
+					u, ok := c.(*ssa.UnOp)
+					if !ok || u.Op != token.NOT {
+						break
+					}
+					c, falseSucc = u.X, 1-falseSucc
+				}
+				if bo, ok := c.(*ssa.BinOp); ok && (bo.Op == token.EQL || bo.Op == token.NEQ) {
+					// ReadyToSend == false / != true / ...
+					for _, pr := range [][2]ssa.Value{{bo.X, bo.Y}, {bo.Y, bo.X}} {
+						if k, ok := pr[1].(*ssa.Const); ok && k.Value != nil && k.Value.Kind() == constant.Bool {
+							c = pr[0]
+							if constant.BoolVal(k.Value) != (bo.Op == token.EQL) {
+								falseSucc = 1 - falseSucc
+							}
+						}
+					}
+				}
+				if u, ok := c.(*ssa.UnOp); ok && u.Op == token.MUL && isRTS(u.X) && gd.Succ == falseSucc {
+					notReady = true
+				}
+			}
+			// followed by the MaxRetries comparison (either operand order, either polarity)
+			cmp := false
+			if i := ifOf(in.Block()); i != nil {
+				for _, cf := range cmpForms(i.Cond) {
+					// the counter re-read from the field, or the very value that was just stored into it (a named local)
+					if cf.Op != token.GTR || !(isCounter(cf.X) || cf.X == st.Val) {
+						continue
+					}
+					g, ok := cf.Y.(*ssa.UnOp)
+					if !ok {
+						continue
+					}
+					if gl, ok := g.X.(*ssa.Global); !ok || gl.Name() != "MaxRetries" {
+						continue
+					}
+					// '>' edge deletes, other edge re-arms both deadlines
+					del, rearmA, rearmI := false, false, false
+					for _, x := range i.Block().Succs[cf.Succ].Instrs {
+						if cc, ok := x.(*ssa.Call); ok && cc.Call.StaticCallee() != nil && cc.Call.StaticCallee().Name() == "deleteFlowKeyFromMapWithoutLock" {
+							del = true
+						}
+					}
+					for _, x := range i.Block().Succs[1-cf.Succ].Instrs {
+						if s2, ok := x.(*ssa.Store); ok {
+							if _, f3, _, ok := fieldOf(s2.Addr); ok {
+								if f3 == "activeExpireTime" {
+									rearmA = true
+								}
+								if f3 == "inactiveExpireTime" {
+									rearmI = true
+								}
+							}
+						}
+					}
+					cmp = del && rearmA && rearmI
+				}
+			}
+			r.Check(inc && notReady && cmp, rule, construct, p.instrPos(in), "+1 in the not-ready branch, then '> MaxRetries' => delete, else re-arm both deadlines and re-push",
+				"the retry counter is not 'incremented once per not-ready expiry, compared with MaxRetries, > deletes, otherwise both deadlines re-armed': uncorrelated flows are not dropped after a bounded number of retries", true)
+		})
+	}
+	if nW < 2 {
+		r.Undecided(rule, "anchor: writers of waitForReadyToSendRetries", "pkg/intermediate/aggregate.go", fmt.Sprintf("found %d", nW))
 	}
 }
